@@ -37,9 +37,8 @@ package scan
 //@   ensures[C18] error-means-no-batch: result1 != nil ==> isnil(result0)
 //@   ensures[C07,C18] ended-iff-past-maxt: result1 == nil ==> (isnil(result0) <==> old(o.currentStep) > o.maxt)
 //@   ensures[C07,C18] batch-size: result1 == nil && !isnil(result0) ==> 1 <= len(result0) && len(result0) <= o.numSteps
-//@   ensures[C06,C07,C18] first-step-is-cursor: result1 == nil && !isnil(result0) ==> result0[0].T == old(o.currentStep)
-//@   ensures[C06,C07,C18] consecutive-steps: result1 == nil && !isnil(result0) ==> forall k in 1..len(result0) ::
-//@       result0[k].T == result0[k-1].T + old(o.step)
+//@   ensures[C06,C07,C18] one-vector-per-step: result1 == nil && !isnil(result0) ==> forall k in 0..len(result0) ::
+//@       result0[k].T == old(o.currentStep) + k*old(o.step)
 //@   ensures[C07,C18] within-window: result1 == nil && !isnil(result0) ==> forall k in 0..len(result0) :: result0[k].T <= o.maxt
 //@   ensures[C07,C18] batch-is-maximal: result1 == nil && !isnil(result0) ==>
 //@       len(result0) == o.numSteps || result0[len(result0)-1].T + old(o.step) > o.maxt
@@ -49,10 +48,9 @@ package scan
 //@       len(result0[k].SampleIDs) == 1 && len(result0[k].Samples) == 1 &&
 //@       result0[k].SampleIDs[0] == 0 && result0[k].Samples[0] == o.val
 //@   loop 0 invariant count: 0 <= currStep && currStep <= o.numSteps && len(vectors) == currStep && !isnil(vectors)
-//@   loop 0 invariant ts-on-grid: (currStep == 0 ==> ts == old(o.currentStep)) && (currStep >= 1 ==> ts == vectors[currStep-1].T + o.step)
+//@   loop 0 invariant ts-on-grid: ts == old(o.currentStep) + currStep*o.step
 //@   loop 0 invariant fields-kept: o.step == old(o.step) && o.numSteps == old(o.numSteps) && o.maxt == old(o.maxt) && o.val == old(o.val) && o.currentStep == old(o.currentStep) && o.vectorPool == old(o.vectorPool)
-//@   loop 0 invariant grid-so-far: (currStep >= 1 ==> vectors[0].T == old(o.currentStep)) &&
-//@       (forall k in 1..currStep :: vectors[k].T == vectors[k-1].T + o.step) &&
+//@   loop 0 invariant grid-so-far: (forall k in 0..currStep :: vectors[k].T == old(o.currentStep) + k*o.step) &&
 //@       (forall k in 0..currStep :: vectors[k].T <= o.maxt)
 //@   loop 0 invariant samples-so-far: forall k in 0..currStep ::
 //@       len(vectors[k].SampleIDs) == 1 && len(vectors[k].Samples) == 1 &&
